@@ -213,6 +213,22 @@ int main(int argc, char** argv) {
                         viol, a.result().info.primal_inf, a.result().info.primal_rel_inf);
         else std::printf("F18: ok (status %d)\n", (int) s);
     }
+    if (which == "F20" || which == "all") {
+        // badly column-scaled singular unbounded QP, IdentityPreconditioner: SOLVED at |x| ~ 1e13 because P x + c evaluates to 0 by cancellation
+        M P0(2, 2); P0 << 10000, -6400, -6400, 4096;      // D [[1,-1],[-1,1]] D, D = diag(100, 64)
+        V c0(2); c0 << 0, 64;                               // unbounded below along -(64, 100)
+        SparseMat<double, int> P0s = P0.sparseView();
+        SparseSolver<double, int, KKT_FULL, sparse::IdentityPreconditioner<double, int>> a;
+        a.setup(P0s, c0, nullopt, nullopt, nullopt, nullopt, nullopt, nullopt);
+        Status s = a.solve();
+        V x = a.result().x;
+        // exact residual at the returned point, in long double with the products split to avoid the same cancellation
+        long double r0 = 10000.0L * x(0) - 6400.0L * x(1), r1 = -6400.0L * x(0) + 4096.0L * x(1) + 64.0L;
+        if (s == PIQP_SOLVED)
+            std::printf("F20: DEFECT PIQP_SOLVED on an unbounded problem after %ld iterations: x = (%.3e, %.3e), reported dual_inf %.3e, residual in extended precision (%.3Lf, %.3Lf)\n",
+                        (long) a.result().info.iter, x(0), x(1), a.result().info.dual_inf, r0, r1);
+        else std::printf("F20: ok (status %d)\n", (int) s);
+    }
     if (which == "F19") {
         // dense::LDLTNoPivot::solve / solveInPlace with a multi-column right-hand side: `dst.array() /= vectorD().array()` divides an
         // n x k array by an n x 1 one.  Build with -DNDEBUG (with assertions on, Eigen aborts on the size mismatch instead).
